@@ -46,7 +46,7 @@ TRUSTED = ["harness/c05.py: abstraction of the implementation's Globals object (
            "values read through context.field_vars())",
            "data_generator.save_continuation_yaml wrapped from the harness side to see the Globals object being saved"]
 ASSUMPTIONS = ["PyYAML: yaml.safe_load(yaml.dump(t, Dumper=SnowfakeryDumper)) gives back the key-sorted tree t for "
-               "trees of str/bool/int/float/null/date/datetime scalars (Section hypothesis yaml_roundtrip; sampled "
+               "trees of str/bool/int/float/null/date/datetime/Decimal scalars (Section hypothesis yaml_roundtrip; sampled "
                "on every case: oracle class yaml-law)",
                "dict keys of the persistent state are Python str; Python str order = UTF-8 byte order"]
 EXHAUSTIVE = {"quick": False, "thorough": False}
@@ -56,7 +56,7 @@ EXTRA_TABLE = "X9_"
 EXTRA_NICK = "x9nick_"
 FINDING_K1 = "C05-K1-row-valued-field-dropped"
 FINDING_K2 = "C05-K2-unrepresentable-value"
-UNREPRESENTABLE_SPECS = ("decimal", "objref", "randref", "slot", "lazy")
+UNREPRESENTABLE_SPECS = ("objref", "randref", "slot", "lazy")
 
 
 # =============================================================================== value specs
@@ -93,7 +93,8 @@ HOSTILE_FLOATS = [0.0, -0.0, 1.0, -1.0, 0.1, 0.5, 1 / 3, 1e15, 1e16, 1e17, 1e22,
 HOSTILE_DATES = [(1, 1, 1), (9999, 12, 31), (2020, 2, 29), (2000, 2, 29), (1900, 2, 28), (1970, 1, 1), (999, 12, 31),
                  (2024, 12, 31), (10, 10, 10), (2038, 1, 19)]
 HOSTILE_OFFSETS = [None, 0, 330, -480, 60, -1, 1, 845, -720, 1439, -1439, 14 * 60]
-HOSTILE_DECIMALS = ["1.50", "0", "-0.00", "1E+3", "123456789.123456789", "NaN", "0.1"]
+HOSTILE_DECIMALS = ["1.50", "0", "-0", "-0.00", "1E+3", "1E-30", "123456789.123456789", "NaN", "sNaN", "-NaN123",
+                    "Infinity", "-Infinity", "0.1", "12", "1e400", "0.30000000000000004", "9" * 40 + ".5"]
 IDENT_TABLES = ["J", "K", "Acct", "Lead_2", "t9", "M"]
 IDENT_NICKS = ["jj", "kk", "first_acct", "n2", "mm"]
 HOSTILE_TABLES = ["yes", "No", "null", "~", "123", "0x1F", "1e3", "a: b", "x #y", "- q", "\xe9", "\u65e5\u672c",
@@ -138,6 +139,9 @@ def gen_scalar_spec(rng):
             return ["float", f2hex(rng.choice(HOSTILE_FLOATS))]
         x = struct.unpack("<d", struct.pack("<Q", rng.getrandbits(64)))[0]
         return ["float", f2hex(x)]
+    if r < 0.745:
+        return ["decimal", rng.choice(HOSTILE_DECIMALS) if rng.random() < 0.7
+                else "%s%d.%0*d" % (rng.choice(["", "-"]), rng.getrandbits(rng.choice([4, 40, 90])), rng.choice([1, 2, 9]), rng.getrandbits(3))]
     if r < 0.77:
         return ["bool", rng.random() < 0.5]
     if r < 0.81:
@@ -439,7 +443,7 @@ def formula_safe(spec):
     formula probe to values whose re-read is again a plain scalar (the probe compares first and
     continued runs, so the distortion itself is harmless; a list / Ellipsis would fail the run)"""
     if spec[0] != "str":
-        return spec[0] in ("int", "float", "bool", "null", "date", "datetime")
+        return spec[0] in ("int", "float", "bool", "null", "date", "datetime", "decimal")
     import ast
     try:
         v = ast.literal_eval(spec[1])
@@ -905,7 +909,8 @@ def restored_check(g0, g1, check_today=True):
     """everything later iterations can observe in g0 (state when the file was written) is in g1
     (state rebuilt from the file), value by value, type by type"""
     dropped = None
-    if dict(map(tuple, g1["last_used"])) != dict(map(tuple, g0["last_used"])):
+    nz = lambda l: {k: v for k, v in l if v != 0}     # a counter that is absent reads as 0 (defaultdict)
+    if nz(g1["last_used"]) != nz(g0["last_used"]):
         return f"ids-not-restored: id counters {g0['last_used'][:6]} were restored as {g1['last_used'][:6]}"
     if dict(map(tuple, g1["nat"])) != dict(map(tuple, g0["nat"])):
         return f"bindings-not-restored: nicknames_and_tables {g0['nat'][:6]} restored as {g1['nat'][:6]}"
@@ -1242,7 +1247,7 @@ def gen_recipe_case(rng, findings=False, single=None):
     if single is not None:
         templates[0]["fields"][0][1] = single
     if findings:
-        kind = rng.choice(["decimal", "fwd", "back", "randref", "objref"])
+        kind = rng.choice(["fwd", "back", "randref", "objref"])
         if kind in ("fwd", "back", "randref") and nt == 1:
             other = _names(rng, IDENT_TABLES, HOSTILE_TABLES, 1, 0.2, taken)[0]
             templates.append({"table": other, "nick": None, "count": 1, "fields": [["nm", gen_scalar_spec(rng)]]})
@@ -1254,9 +1259,7 @@ def gen_recipe_case(rng, findings=False, single=None):
         earlier = [x for x in templates[:ti] if "." not in x["table"]]
         later = [x for x in templates[ti + 1:] if "." not in x["table"]]
         spec = None
-        if kind == "decimal":
-            spec = ["decimal", rng.choice(HOSTILE_DECIMALS)]
-        elif kind == "objref":
+        if kind == "objref":
             spec = ["objref", rng.choice(IDENT_TABLES), rng.randint(1, 9)]
         elif kind == "fwd" and later and not hidden:
             spec = ["ref", rng.choice(later)["table"]]
@@ -1266,7 +1269,7 @@ def gen_recipe_case(rng, findings=False, single=None):
         elif kind == "randref" and earlier and not hidden:
             spec = ["randref", rng.choice(earlier)["table"]]
         if spec is None:
-            spec = ["decimal", rng.choice(HOSTILE_DECIMALS)]
+            spec = ["objref", rng.choice(IDENT_TABLES), rng.randint(1, 9)]
         fn = _names(rng, ["owner", "parent", "amt"], HOSTILE_FIELDS, 1, 0.2, {f for f, _ in t["fields"]} | {"id"})[0]
         t["fields"].insert(rng.randrange(len(t["fields"]) + 1), [fn, spec])
     return {"kind": "recipe", "version": version, "route": "literal" if rng.random() < 0.3 else "plugin",
@@ -1292,10 +1295,10 @@ def gen_direct_case(rng, findings=False):
             fnames = _names(rng, IDENT_FIELDS, HOSTILE_FIELDS, nf, 0.5, {"id"}) if nf else []
             vals = [["id", ["int", rng.choice([1, 2, 7, 2 ** 40])]]] + [[f, gen_scalar_spec(rng)] for f in fnames]
             if findings and tables:
-                k = rng.choice(["row", "slot", "lazy", "objref", "decimal"])
+                k = rng.choice(["row", "slot", "lazy", "objref"])
                 tgt = rng.choice(tables)
                 spec = {"row": ["row", tgt, 1], "slot": ["slot", tgt, rng.choice([None, 3])], "lazy": ["lazy", tgt, 2],
-                        "objref": ["objref", tgt, 5], "decimal": ["decimal", rng.choice(HOSTILE_DECIMALS)]}[k]
+                        "objref": ["objref", tgt, 5]}[k]
                 vals.insert(rng.randrange(1, len(vals) + 1), ["ref_" + k, spec])
             rng.shuffle(vals)
             rows.append({"table": t, "nick": nick, "values": vals})
@@ -1317,8 +1320,11 @@ def _pv(spec):
 
 
 def base_ptree(rng):
+    spec = gen_scalar_spec(rng)
+    while spec[0] == "decimal":        # the damaged file is written with plain yaml.safe_dump
+        spec = gen_scalar_spec(rng)
     row = ["map", [["_tablename", _pv(["str", "J"])],
-                   ["_values", ["map", [["id", _pv(["int", 1])], ["f", _pv(gen_scalar_spec(rng))]]]]]]
+                   ["_values", ["map", [["id", _pv(["int", 1])], ["f", _pv(spec)]]]]]]
     return [
         ["id_manager", ["map", [["last_used_ids", ["map", [["J", _pv(["int", 1])], ["P_", _pv(["int", 3])]]]]]]],
         ["intertable_dependencies", ["list", [["map", [["field_name", _pv(["str", "b"])],
@@ -1397,7 +1403,7 @@ def boundary_cases(rng):
     out = []
     specs = ([["str", s] for s in HOSTILE_STRINGS] + [["int", n] for n in HOSTILE_INTS] +
              [["float", f2hex(x)] for x in HOSTILE_FLOATS] + [["bool", True], ["bool", False], ["null"]] +
-             [["date", *d] for d in HOSTILE_DATES] +
+             [["date", *d] for d in HOSTILE_DATES] + [["decimal", d] for d in HOSTILE_DECIMALS] +
              [["datetime", 2020, 2, 29, 5, 0, 0, us, off] for off in HOSTILE_OFFSETS for us in (0, 123)] +
              [["datetime", 1, 1, 1, 0, 0, 0, 0, None], ["datetime", 9999, 12, 31, 23, 59, 59, 999999, None]])
     for i in range(0, len(specs), 6):
@@ -1413,15 +1419,15 @@ def generate(rng, tier):
     quick = tier == "quick"
     cases = []
     cases.extend(boundary_cases(rng))
-    for _ in range(140 if quick else 2200):
+    for _ in range(140 if quick else 4000):
         cases.append(gen_recipe_case(rng))
-    for _ in range(24 if quick else 250):
+    for _ in range(24 if quick else 400):
         cases.append(gen_recipe_case(rng, findings=True))
-    for _ in range(160 if quick else 3000):
+    for _ in range(160 if quick else 6000):
         cases.append(gen_direct_case(rng))
-    for _ in range(24 if quick else 250):
+    for _ in range(24 if quick else 400):
         cases.append(gen_direct_case(rng, findings=True))
-    for _ in range(120 if quick else 1000):
+    for _ in range(120 if quick else 1500):
         cases.append(gen_malformed_case(rng))
     return cases
 
